@@ -20,7 +20,8 @@ COVER_NOTE = ("input classes driven through the real env at the quick tier: dura
               "the INIT_FINISH = 9999 filler of finish_times, event times exactly 9999/9998/10000), unbalanced jobs, unusable "
               "machines, padded rows, generator instances at default-like and at large processing times, instances read from "
               "files, mask_no_ops on/off, check_mask and stepwise_reward on/off (not modelled: they must not change "
-              "mask/done/time/schedule, and get_reward(td, actions) must stay −makespan)")
+              "mask/done/time/schedule, and get_reward(td, actions) must stay −makespan); the op_is_ready feature td['is_ready'] is "
+              "modelled (Fjsp.isReady) and compared at every step of the C07 stream")
 NO_THM = "no theorem yet: correspondence + spec oracle only"
 
 
@@ -152,7 +153,11 @@ def check_schedules(ctx, jssp: bool):
             f = parse_fields(replies[r])
             fin = ep.final(r)
             jl.compare_row(ctx, t, i, N, mno, jssp, ep.actions[r], ep.masks[r], ep.done[r], ep.times[r], fin, rew[r], f,
-                           what="C07 stream")
+                           what="C07 stream", ready=ep.ready[r])
+            # op_is_ready beyond the INIT_FINISH filler: an operation is reported ready although its job predecessor
+            # is not even scheduled (model and code agree; Lean: Fjsp.isReady_wrong_beyond_sentinel) — counted, not a C07 clause
+            if any(tm >= jl.INIT_FINISH for tm in ep.times[r]):
+                ctx.count(f"{t}.is_ready-evaluated-beyond-INIT_FINISH")
             ctx.case((t, repr(i), N, mno, tuple(ep.actions[r])), nontrivial=jl.total_ops(i) > 1)
             v = verdicts[r]
             if v.get("valid") != "1":
@@ -500,7 +505,7 @@ def _ns(j):
 
 for _j in (False, True):
     _n = _ns(_j)
-    _reg("C07", _j, check_schedules, "Rl4co.Props.C07.Fjsp",
+    _reg("C07", _j, check_schedules, ["Rl4co.Props.C07.Fjsp", "Rl4co.Props.C07.FjspFeatures", "Rl4co.Props.C02.FjspLoop"],
          [Theorem(f"{_n}.schedule_valid", "proved",
                   "every finished mask-confined episode (any WF instance, waits, mask_no_ops on/off, padding) leaves a "
                   "Spec.ValidSchedule whose makespan is −reward"),
@@ -508,13 +513,28 @@ for _j in (False, True):
                   "state invariant of every reachable state: next_op inside its job, op scheduled iff before next_op, "
                   "exactly one eligible machine with the exact duration, busy_until ≥ finish of every op on the machine, "
                   "no overlap per machine / per job, no assertion fired"),
-          Theorem("Rl4co.Fjsp.time_monotone", "proved", "the clock never runs backwards")])
-    _reg("C02", _j, check_termination, ["Rl4co.Props.C02.Fjsp", "Rl4co.Props.C18.FjspGenWF"],
+          Theorem("Rl4co.Fjsp.time_monotone", "proved", "the clock never runs backwards"),
+          Theorem("Rl4co.Fjsp.filler_of_reach", "proved", "unscheduled operations keep finish = INIT_FINISH (extracted), start = 0"),
+          Theorem("Rl4co.Fjsp.release_guard_redundant_below_sentinel", "proved",
+                  "while time < INIT_FINISH the release test with and without the `job_in_process &` guard agree on reachable states"),
+          Theorem("Rl4co.Fjsp.release_guard_needed_beyond_sentinel", "proved",
+                  "beyond INIT_FINISH the unguarded test skips an unscheduled operation (why C07 needs the guard for all horizons)"),
+          Theorem("Rl4co.Fjsp.isReady_iff_below_sentinel", "proved",
+                  "op_is_ready (td['is_ready'], compared at every step): below INIT_FINISH it is 'unscheduled and predecessor complete'"),
+          Theorem("Rl4co.Fjsp.isReady_wrong_beyond_sentinel", "proved",
+                  "beyond INIT_FINISH op_is_ready reports an operation ready whose predecessor is not scheduled (real code agrees)"),
+          Theorem("Rl4co.Fjsp.valid_schedule_exists", "proved", "Spec sanity: every WF instance has a valid schedule"),
+          Theorem("Rl4co.Fjsp.makespan_unique", "proved", "Spec sanity: the makespan is determined by the schedule"),
+          Theorem("Rl4co.Fjsp.valid_shift", "proved", "Spec sanity: delaying the whole schedule keeps validity, makespan + c"),
+          Theorem("Rl4co.Fjsp.job_finish_strict", "proved", "Spec sanity: k-th operation of a job completes at time ≥ k")])
+    _reg("C02", _j, check_termination, ["Rl4co.Props.C02.Fjsp", "Rl4co.Props.C02.FjspLoop", "Rl4co.Props.C18.FjspGenWF"],
          [Theorem(f"{_n}.mask_nonempty", "proved", "every reachable state, finished or not, offers an action (mask_no_ops on and off)"),
           Theorem(f"{_n}.done_stable", "proved", "a step on a finished row is the identity, so done is absorbing"),
           Theorem(f"{_n}.steps_le", "proved", "an unfinished mask-confined run has at most 2·#operations steps"),
           Theorem("Rl4co.Fjsp.steps_eq", "proved",
                   "a finished run has exactly one scheduling step per operation, plus at most one wait per operation"),
+          Theorem("Rl4co.Fjsp.transits_le", "proved",
+                  "over a whole episode the executions of _transit_to_next_time (waits + while-loop iterations) are ≤ #operations"),
           Theorem("Rl4co.Fjsp.loop_terminates", "proved",
                   "the `while step_complete` loop comes to rest within the model's fuel (M+1) and the code's assert never fires"),
           Theorem("Rl4co.Fjsp.mask_of_done", "proved", "a finished row is offered exactly the wait action"),
@@ -545,7 +565,8 @@ for _j in (False, True):
                   "∀ batch ∀ step ∀ row: a whole mask-confined batched episode equals stepping every row alone")],
          ["batched rows are compared with the per-instance model, with the batched model (stepBatch) and with a real solo re-run "
           "(with and without the padded columns)"])
-    _reg("C05", _j, check_completeness, ["Rl4co.Props.C05.Fjsp", "Rl4co.Props.C05.FjspClass", "Rl4co.Props.C05.FjspOptimum"],
+    _reg("C05", _j, check_completeness, ["Rl4co.Props.C05.Fjsp", "Rl4co.Props.C05.FjspClass", "Rl4co.Props.C05.FjspOptimum",
+                                           "Rl4co.Props.C05.FjspActive"],
          [Theorem(f"{_n}.optimum_reachable", "proved",
                   "mask_no_ops=False, unconditional: a best makespan reachable through the mask exists and equals the minimum "
                   "makespan over ALL valid schedules (left-shift built by the environment: Fjsp.dominating_run)"),
@@ -553,6 +574,12 @@ for _j in (False, True):
                   "mask_no_ops=False: a schedule is reachable ⇔ it is valid and event-aligned"),
           Theorem(f"{_n}.reachable_iff_no_wait", "proved",
                   "mask_no_ops=True: a schedule is reachable ⇔ it is valid, event-aligned and non-delay"),
+          Theorem(f"{_n}.active_schedule_reachable", "proved",
+                  "mask_no_ops=False reaches every valid ACTIVE schedule (non-delay ⇒ active ⇒ semi-active ⇒ event-aligned proved)"),
+          Theorem(f"{_n}.best_reachable_eq_nondelay_optimum", "proved",
+                  "mask_no_ops=True: the best makespan through the mask exists and is exactly the optimum of the non-delay class"),
+          Theorem("Rl4co.Fjsp.nondelay_optimum_gap", "proved", "on exDelay the non-delay optimum is ≥ 21 while a valid schedule of makespan 12 exists"),
+          Theorem("Rl4co.Fjsp.reachMk_iff_no_wait", "proved", "reachable makespans = makespans of valid event-aligned non-delay schedules"),
           Theorem("Rl4co.Fjsp.reachable_nondelay", "proved", "mask_no_ops=True: every finished episode yields a non-delay schedule"),
           Theorem("Rl4co.Fjsp.best_reachable_eq_optimum", "proved",
                   "mask_no_ops=False: r is the least reachable makespan ⇔ r is the least makespan of a valid schedule"),
